@@ -267,7 +267,10 @@ def run(prop, tier, seed, backends=BACKENDS, only_universe=None):
             bad = verdicts[k]
             if errs:
                 bad = bad + [["Harness_" + errs[0].replace(" ", "_"), 0]]
-            mine = [b for b in bad if b[0].startswith(own) or (b[0] == "Conform" and _conform_owner(tr, b[1]) == prop)]
+            # (a fan-out that reaches a subscription which is no longer registered is also C13's business: "after CLOSE, after a
+            #  REQ reusing the same id ... no further event is sent for the old subscription")
+            mine = [b for b in bad if b[0].startswith(own) or (b[0] == "Conform" and _conform_owner(tr, b[1]) == prop)
+                    or (prop == "C13" and b[0] == "C05_FanOutExact")]
             for b in bad:
                 if b not in mine:
                     other[b[0]] = other.get(b[0], 0) + 1
